@@ -465,3 +465,43 @@ def all_signals(top):
     for e, ch in spec.children: rec(ch, path + (e,))
   rec(top, ())
   return out
+
+def generate_openloop(rng, uid, maxdepth, two_methods=True):
+  """An open-loop (method driven) top around a generated RTL tree: top-level method ports `push` (hands the next
+  input values to a feeding update block) and optionally `peek`; a counter register with its count+1 wire (a dump
+  taken at one instant must show nxt == count+1); an update_ff spy block that calls C16_SPY[0] at every clock edge.
+  returns (module source, wrapper CompSpec, [(feed wire, td)])"""
+  g = Gen(rng, uid, maxdepth)
+  dut = g.gen_comp(maxdepth)
+  w = CompSpec(f'C16_{uid}_OL')
+  L = w.lines
+  feeds = []
+  L.append(f's.dut = {dut.name}()')
+  w.children.append(('dut', dut))
+  for i, (pn, td) in enumerate(dut.inports):
+    L.append(f's.p{i} = {ty(td)}()')
+    L.append(f's.f{i} = Wire( {ty(td)} )')
+    L.append(f's.dut.{pn} //= s.f{i}')
+    w.signals.append((f'f{i}', td)); feeds.append((f'f{i}', td))
+  for i, (pn, td) in enumerate(dut.outports[:2]):
+    L.append(f's.o{i} = Wire( {ty(td)} )')
+    L.append(f's.o{i} //= s.dut.{pn}')
+    w.signals.append((f'o{i}', td))
+  L += ['@update', 'def up_feed():'] + [f'  s.f{i} @= s.p{i}' for i in range(len(feeds))] + (['  pass'] if not feeds else [])
+  cw = rng.choice([2, 3, 8])
+  L += [f's.count = Wire( mk_bits({cw}) )', f's.nxt = Wire( mk_bits({cw}) )',
+        '@update', 'def up_nxt():', '  s.nxt @= s.count + 1',
+        '@update_ff', 'def up_cnt():', '  if s.reset: s.count <<= 0', '  else: s.count <<= s.nxt']
+  w.signals += [('count', ('b', cw)), ('nxt', ('b', cw))]
+  L += ['def hook():', '  C16_SPY[0]()', '@update_ff', 'def up_spy():', '  hook()']
+  if two_methods:
+    L.append('s.add_constraints( M( s.push ) < U( up_feed ), U( up_feed ) < M( s.peek ) )')
+  else:
+    L.append('s.add_constraints( M( s.push ) < U( up_feed ) )')
+  w.methods += ['@method_port', 'def push( s, vals ):'] + [f'  s.p{i} = vals[{i}]' for i in range(len(feeds))] + ['  return None']
+  if two_methods:
+    w.methods += ['@method_port', 'def peek( s ):', '  return int( s.count )']
+  w.methods += ['def line_trace( s ):', '  return ""']
+  w.features.add('open-loop')
+  src = HEADER + '\nC16_SPY = [ None ]\n\n' + '\n'.join(c.source() for c in g.classes) + '\n' + w.source()
+  return src, w, feeds
